@@ -118,125 +118,11 @@ func main() {
 		fmt.Printf("%d programs, %d scenarios\n", len(pl.progs), len(tasks))
 		return
 	}
-	g := &genSet{dir: filepath.Join(*build, "gen"), mode: pl.modes[0].mode, autoInst: pl.modes[0].autoInst, progs: pl.progs, race: *prop == "C12"}
-	if g.race {
-		setRaceEnv(*build)
-	}
-	g.write(*repo, mc.VerifDir())
-	g.runCff(*cffBin, mc.Workers())
-	// every program of a run-time family is well-formed: the tool must accept it
-	rejected := 0
-	for _, p := range pl.progs {
-		if !g.accepted[p.ID] {
-			rejected++
-			out := g.outOf(p.ID)
-			scj, _ := json.Marshal(p)
-			rep.Report(&mc.Replay{Property: "C14", Engine: "genmc", Key: progKey(p), Scenario: scj,
-				Message: fmt.Sprintf("cff rejected (or crashed on) a well-formed program: %s", firstLines(grepFile(out.stderr, filepath.Base(g.srcFile[p.ID])), 3))})
-		}
-	}
-	ov, err := g.mapRangeOverlay(*overlay, *build)
-	if err != nil {
-		mc.ToolError("%v", err)
-	}
-	if err := g.buildDriver(ov, filepath.Join(*build, "bin", "driver")); err != nil {
-		mc.ToolError("%v", err)
-	}
-	for id, msg := range g.broken {
-		for _, p := range pl.progs {
-			if p.ID == id {
-				scj, _ := json.Marshal(p)
-				rep.Report(&mc.Replay{Property: "C13", Engine: "genmc", Key: progKey(p), Scenario: scj,
-					Message: "cff exited successfully but its output does not compile: " + msg})
-			}
-		}
-	}
-	// run
-	var run []genrt.Task
-	var runProg []*pg.Program
-	for i, t := range tasks {
-		p := taskProg[i]
-		if !g.accepted[p.ID] || g.broken[p.ID] != "" {
-			continue
-		}
-		run = append(run, t)
-		runProg = append(runProg, p)
-	}
+	pr := execPlan(*prop, *tier, pl, pl.modes[0], "", tasks, taskProg, *build, *overlay, *repo, *cffBin, rep)
+	tot, exhaustive, capped, visibles, samples := pr.tot, pr.exhaustive, pr.capped, pr.visibles, pr.samples
+	rejected, racesConfirmed := pr.rejected, pr.racesConfirmed
+	results, runProg := pr.results, pr.runProg
 	seed := mc.Seed()
-	tb, _ := json.Marshal(run)
-	tf := filepath.Join(*build, "tasks.json")
-	rf := filepath.Join(*build, "results.json")
-	os.WriteFile(tf, tb, 0o644)
-	os.Remove(rf)
-	so, se, code := runCmd(*build, filepath.Join(*build, "bin", "driver"), "-tasks", tf, "-out", rf)
-	if code != 0 {
-		mc.ToolError("driver failed (%d): %s %s", code, truncate(so, 2000), truncate(se, 2000))
-	}
-	rb, err := os.ReadFile(rf)
-	if err != nil {
-		mc.ToolError("driver wrote no results: %v", err)
-	}
-	var results []resultRec
-	if err := json.Unmarshal(rb, &results); err != nil {
-		mc.ToolError("bad driver results: %v", err)
-	}
-	var tot statsRec
-	racesConfirmed := 0
-	exhaustive := true
-	var capped []string
-	visibles := 0
-	var samples []any
-	outcomesByProg := map[string]map[string]bool{}
-	for i, r := range results {
-		p := runProg[i]
-		if r.ToolErr != "" {
-			mc.ToolError("%s: %s", r.Scenario, r.ToolErr)
-		}
-		tot.Execs += r.Stats.Execs
-		tot.Complete += r.Stats.Complete
-		tot.Blocked += r.Stats.Blocked
-		tot.Nodes += r.Stats.Nodes
-		tot.Edges += r.Stats.Edges
-		tot.Steps += r.Stats.Steps
-		if r.Stats.MaxDepth > tot.MaxDepth {
-			tot.MaxDepth = r.Stats.MaxDepth
-		}
-		visibles += r.Visibles
-		if !r.Stats.Exhaustive && len(r.Violations) == 0 {
-			exhaustive = false
-			capped = append(capped, fmt.Sprintf("%s [%s] (%s after %d executions)", r.Scenario, progKey(p), r.Stats.CappedBy, r.Stats.Execs))
-		}
-		if len(samples) < 4 && r.Sample != nil && (i%211 == 0) {
-			samples = append(samples, map[string]any{"program": progKey(p), "scenario": r.Scenario, "decisions": compact(r.Sample.Decisions),
-				"visible_trace": r.Sample.Visible, "executions": r.Stats.Execs, "distinct_outcomes": r.Outcomes})
-		}
-		if outcomesByProg[r.Scenario] == nil {
-			outcomesByProg[r.Scenario] = map[string]bool{}
-		}
-		for _, o := range r.Outcomes {
-			outcomesByProg[r.Scenario][o] = true
-		}
-		for vi := range r.Violations {
-			v := &r.Violations[vi]
-			if v.Race {
-				// confirm in a fresh process (the detector reports a pair of stacks once per process)
-				if msg, ok := confirmRace(*build, run[i].Sc, v.Decisions); !ok {
-					mc.ToolError("NONDETERMINISM: a race report for %s [%s] was not reproduced by replaying its schedule in a fresh process: %s", r.Scenario, progKey(p), msg)
-				}
-				racesConfirmed++
-			}
-			scj, _ := json.Marshal(map[string]any{"program": p, "scenario": run[i].Sc})
-			rep.Report(&mc.Replay{Property: v.Prop, Engine: "genmc", Key: progKey(p) + " :: " + strings.TrimPrefix(r.Scenario, p.ID+" "), Message: v.Msg,
-				Scenario: scj, Decisions: v.Decisions, Trace: v.Trace, Visible: v.Visible,
-				Note: "replay: /verif/check " + *prop + " --replay <this file> (re-generates the program with the cff binary of the working tree)"})
-		}
-		// C02: a deterministic program has one observable outcome over all schedules
-		if *prop == "C02" && len(r.Outcomes) > 1 && len(r.Violations) == 0 {
-			scj, _ := json.Marshal(map[string]any{"program": p, "scenario": run[i].Sc})
-			rep.Report(&mc.Replay{Property: "C02", Engine: "genmc", Key: progKey(p) + " :: outcome-set", Scenario: scj,
-				Message: fmt.Sprintf("the observable outcome depends on the schedule: %v", r.Outcomes)})
-		}
-	}
 	if os.Getenv("VERIF_SLOWEST") != "" {
 		idx := make([]int, len(results))
 		for i := range idx {
@@ -258,8 +144,8 @@ func main() {
 			"exhaustive":                    exhaustive,
 			"programs":                      len(pl.progs),
 			"programs_rejected_by_cff":      rejected,
-			"programs_not_compiling":        len(g.broken),
-			"scenarios":                     len(run),
+			"programs_not_compiling":        pr.broken,
+			"scenarios":                     pr.scenarios,
 			"executions":                    tot.Execs,
 			"sleep_blocked_executions":      tot.Blocked,
 			"steps_executed":                tot.Steps,
@@ -267,7 +153,7 @@ func main() {
 			"distinct_visible_traces":       visibles,
 			"capped_scenarios":              capped,
 			"known_findings_hit":            rep.KnownHits,
-			"race_detector":                 g.race,
+			"race_detector":                 pr.race,
 			"race_reports_confirmed":        racesConfirmed,
 			"rule":                          "every program of the family is rendered to Go, compiled by the cff binary built from the working tree, linked against the rewritten scheduler, and every (program, outcome vector, N) scenario is explored over all interleavings (sleep-set DFS, unbounded); each execution is compared with the reference interpreter of the directive semantics",
 		},
@@ -283,7 +169,7 @@ func main() {
 		mc.ToolError("evidence: %v", err)
 	}
 	fmt.Printf("%s %s: %d programs (%d rejected, %d not compiling), %d scenarios, %d executions (%d complete), %d states, %d transitions, exhaustive=%v, %.1fs\n",
-		*prop, *tier, len(pl.progs), rejected, len(g.broken), len(run), tot.Execs, tot.Complete, tot.Nodes, tot.Edges, exhaustive, wall)
+		*prop, *tier, len(pl.progs), rejected, pr.broken, pr.scenarios, tot.Execs, tot.Complete, tot.Nodes, tot.Edges, exhaustive, wall)
 	for _, c := range capped {
 		fmt.Println("  capped:", c)
 	}
@@ -338,6 +224,155 @@ func confirmRace(build string, sc genrt.Scenario, decisions []int) (string, bool
 		last = "no race report in 16 fresh replays; last results: " + truncate(string(rb), 400)
 	}
 	return last, false
+}
+
+// planResult is what one execution of a plan (one generation mode) yields.
+type planResult struct {
+	tot            statsRec
+	exhaustive     bool
+	capped         []string
+	visibles       int
+	samples        []any
+	outcomes       map[string][]string // "program key :: scenario" -> distinct observable outcomes over all schedules
+	rejected       int
+	broken         int
+	scenarios      int
+	racesConfirmed int
+	race           bool
+	results        []resultRec
+	runProg        []*pg.Program
+}
+
+// execPlan generates the programs of pl in one mode, builds the driver,
+// explores every scenario and reports violations through rep.
+func execPlan(prop, tier string, pl *plan, gm genMode, sub string, tasks []genrt.Task, taskProg []*pg.Program, build, overlay, repo, cffBin string, rep *mc.Reporter) *planResult {
+	pr := &planResult{exhaustive: true, outcomes: map[string][]string{}}
+	g := &genSet{dir: filepath.Join(build, "gen"+sub), mode: gm.mode, autoInst: gm.autoInst, progs: pl.progs, race: prop == "C12"}
+	if g.race {
+		setRaceEnv(build)
+	}
+	g.write(repo, mc.VerifDir())
+	g.runCff(cffBin, mc.Workers())
+	// every program of a run-time family is well-formed: the tool must accept it
+	rejected := 0
+	for _, p := range pl.progs {
+		if !g.accepted[p.ID] {
+			rejected++
+			out := g.outOf(p.ID)
+			scj, _ := json.Marshal(p)
+			rep.Report(&mc.Replay{Property: "C14", Engine: "genmc", Key: progKey(p), Scenario: scj,
+				Message: fmt.Sprintf("cff rejected (or crashed on) a well-formed program: %s", firstLines(grepFile(out.stderr, filepath.Base(g.srcFile[p.ID])), 3))})
+		}
+	}
+	ov, err := g.mapRangeOverlay(overlay, build)
+	if err != nil {
+		mc.ToolError("%v", err)
+	}
+	if err := g.buildDriver(ov, filepath.Join(build, "bin", "driver"+sub)); err != nil {
+		mc.ToolError("%v", err)
+	}
+	for id, msg := range g.broken {
+		for _, p := range pl.progs {
+			if p.ID == id {
+				scj, _ := json.Marshal(p)
+				rep.Report(&mc.Replay{Property: "C13", Engine: "genmc", Key: progKey(p), Scenario: scj,
+					Message: "cff exited successfully but its output does not compile: " + msg})
+			}
+		}
+	}
+	// run
+	var run []genrt.Task
+	var runProg []*pg.Program
+	for i, t := range tasks {
+		p := taskProg[i]
+		if !g.accepted[p.ID] || g.broken[p.ID] != "" {
+			continue
+		}
+		run = append(run, t)
+		runProg = append(runProg, p)
+	}
+	_ = mc.Seed()
+	tb, _ := json.Marshal(run)
+	tf := filepath.Join(build, "tasks"+sub+".json")
+	rf := filepath.Join(build, "results"+sub+".json")
+	os.WriteFile(tf, tb, 0o644)
+	os.Remove(rf)
+	so, se, code := runCmd(build, filepath.Join(build, "bin", "driver"+sub), "-tasks", tf, "-out", rf)
+	if code != 0 {
+		mc.ToolError("driver failed (%d): %s %s", code, truncate(so, 2000), truncate(se, 2000))
+	}
+	rb, err := os.ReadFile(rf)
+	if err != nil {
+		mc.ToolError("driver wrote no results: %v", err)
+	}
+	var results []resultRec
+	if err := json.Unmarshal(rb, &results); err != nil {
+		mc.ToolError("bad driver results: %v", err)
+	}
+	var tot statsRec
+	racesConfirmed := 0
+	exhaustive := true
+	var capped []string
+	visibles := 0
+	var samples []any
+	outcomesByProg := map[string]map[string]bool{}
+	for i, r := range results {
+		p := runProg[i]
+		if r.ToolErr != "" {
+			mc.ToolError("%s: %s", r.Scenario, r.ToolErr)
+		}
+		tot.Execs += r.Stats.Execs
+		tot.Complete += r.Stats.Complete
+		tot.Blocked += r.Stats.Blocked
+		tot.Nodes += r.Stats.Nodes
+		tot.Edges += r.Stats.Edges
+		tot.Steps += r.Stats.Steps
+		if r.Stats.MaxDepth > tot.MaxDepth {
+			tot.MaxDepth = r.Stats.MaxDepth
+		}
+		visibles += r.Visibles
+		if !r.Stats.Exhaustive && len(r.Violations) == 0 {
+			exhaustive = false
+			capped = append(capped, fmt.Sprintf("%s [%s] (%s after %d executions)", r.Scenario, progKey(p), r.Stats.CappedBy, r.Stats.Execs))
+		}
+		if len(samples) < 4 && r.Sample != nil && (i%211 == 0) {
+			samples = append(samples, map[string]any{"program": progKey(p), "scenario": r.Scenario, "decisions": compact(r.Sample.Decisions),
+				"visible_trace": r.Sample.Visible, "executions": r.Stats.Execs, "distinct_outcomes": r.Outcomes})
+		}
+		if outcomesByProg[r.Scenario] == nil {
+			outcomesByProg[r.Scenario] = map[string]bool{}
+		}
+		for _, o := range r.Outcomes {
+			outcomesByProg[r.Scenario][o] = true
+		}
+		for vi := range r.Violations {
+			v := &r.Violations[vi]
+			if v.Race {
+				// confirm in a fresh process (the detector reports a pair of stacks once per process)
+				if msg, ok := confirmRace(build, run[i].Sc, v.Decisions); !ok {
+					mc.ToolError("NONDETERMINISM: a race report for %s [%s] was not reproduced by replaying its schedule in a fresh process: %s", r.Scenario, progKey(p), msg)
+				}
+				racesConfirmed++
+			}
+			scj, _ := json.Marshal(map[string]any{"program": p, "scenario": run[i].Sc})
+			rep.Report(&mc.Replay{Property: v.Prop, Engine: "genmc", Key: progKey(p) + " :: " + strings.TrimPrefix(r.Scenario, p.ID+" "), Message: v.Msg,
+				Scenario: scj, Decisions: v.Decisions, Trace: v.Trace, Visible: v.Visible,
+				Note: "replay: /verif/check " + prop + " --replay <this file> (re-generates the program with the cff binary of the working tree)"})
+		}
+		// C02: a deterministic program has one observable outcome over all schedules
+		if prop == "C02" && len(r.Outcomes) > 1 && len(r.Violations) == 0 {
+			scj, _ := json.Marshal(map[string]any{"program": p, "scenario": run[i].Sc})
+			rep.Report(&mc.Replay{Property: "C02", Engine: "genmc", Key: progKey(p) + " :: outcome-set", Scenario: scj,
+				Message: fmt.Sprintf("the observable outcome depends on the schedule: %v", r.Outcomes)})
+		}
+	}
+	pr.tot, pr.exhaustive, pr.capped, pr.visibles, pr.samples = tot, exhaustive, capped, visibles, samples
+	pr.rejected, pr.broken, pr.scenarios, pr.racesConfirmed, pr.race = rejected, len(g.broken), len(run), racesConfirmed, g.race
+	pr.results, pr.runProg = results, runProg
+	for i, r := range results {
+		pr.outcomes[progKey(runProg[i])+" :: "+strings.TrimPrefix(r.Scenario, runProg[i].ID+" ")] = r.Outcomes
+	}
+	return pr
 }
 
 func compact(d []int) string {
